@@ -324,8 +324,13 @@ def p3(e: Engine, rep: Report):
             kv = key.value.lower() if isinstance(key, ast.Constant) and \
                 isinstance(key.value, str) else None
             st = fx.at(n) or frozenset()
-            ok = any(not p and ' in ' in k and 'headers' in k and
-                     kv is not None and kv in k.lower() for p, k in st)
+            ok = any(kv is not None and kv in k.lower() and
+                     'headers' in k and (
+                         (not p and ' in ' in k) or
+                         (p and k.endswith(' is None') and
+                          ('.get(' in k or '[' in k)) or
+                         (not p and ('.get(' in k) and ' is ' not in k))
+                     for p, k in st)
             rep.check(ok and kv == hdr, 'P3', where,
                       '%s header added only when absent' % hdr,
                       'the %s header is set without `%r not in '
